@@ -5,6 +5,8 @@
 (* every shape in {2..MaxW}^2 \cup {2..MaxW}^3, and emits, for the shapes   *)
 (* replayed into the implementation, the volume, the exact weight of every *)
 (* rational scheme, the bound, and the Fourier1 weight as an expression.   *)
+(* Each case also carries a denominator (axes / 2^k: VolumeHomogeneous), a *)
+(* non-zero origin, and a flag for the replay through from_cube(weight=).  *)
 (***************************************************************************)
 EXTENDS Cubic, SequencesExt, Json
 
